@@ -24,7 +24,7 @@ def run(ck):
     # (b) every position field of every node = the offset of the token the Syntax spec designates, in every layout
     c06.run_syntax(ck, "tree-positions")
     # (c) run-time error positions: script name + a position inside the statement at fault, for every chain entry
-    progs = [p for p in gen.gen_use(q, ck.seed) if ":fail" in p["id"]]
+    progs = [p for p in gen.gen_use(q, ck.seed) if ":fail" in p["id"] or p["id"].startswith("use:first")]
     progs += [p for p in gen.gen_hostile(True, ck.seed)][: (300 if q else 3000)]
     machine.run_family(ck, "error-positions", progs)
     # (e) load-time link errors: the root cause and every use() call site on the way out, for all script sets of the Loader spec
